@@ -56,15 +56,24 @@ type transport struct {
 }
 
 func (transport) Read(p []byte) (int, error) {
+	if r, _, _ := verifIO(); r != nil {
+		return r.Read(p)
+	}
 	return os.Stdin.Read(p)
 }
 
 func (transport) Write(p []byte) (int, error) {
+	if _, w, _ := verifIO(); w != nil {
+		return w.Write(p)
+	}
 	return os.Stdout.Write(p)
 }
 
 func (t transport) Close() error {
 	t.Logger.Info("closing connections ..")
+	if _, _, c := verifIO(); c != nil {
+		return c.Close()
+	}
 	if err := os.Stdin.Close(); err != nil {
 		t.Logger.Sugar().Errorf("cannot close stdin: %v", err)
 		return err
